@@ -507,6 +507,41 @@ def d1_leg_direction(F, r):
         raise AnchorError(f"only {n} rank-resolved leg queries")
 
 
+# ---- O1 component-wise load comparisons ------------------------------------------------------------
+O1_HEURISTIC = {
+    "vrp_core::construction::features::reloads::ReloadFeatureFactory::<T>::build": "load-schedule threshold for placing reloads: a heuristic, not a feasibility verdict (incomparable => treated as above threshold)",
+}
+
+
+def q1_no_self_comparison(F, r):
+    from .common import self_comparison_rule
+    n = self_comparison_rule(F, r, ("vrp_core::construction::features", "vrp_core::construction::enablers", "vrp_core::models::common", "vrp_core::models::problem",
+                                    "vrp_core::models::goal", "vrp_pragmatic::format::problem"), "feasibility guard")
+    if n < 300:
+        r.fail("comparison floor", f"only {n} comparison sites scanned in constraint code")
+
+
+def o1_componentwise_loads(F, r):
+    from .c12 import partial_order_sites
+    sites = partial_order_sites(F, ("vrp_core::construction::features::capacity", "vrp_core::construction::features::reloads", "vrp_core::construction::features::recharge",
+                                    "vrp_core::construction::enablers::multi_trip"))
+    fits = 0
+    for fid, fn in F.fns.items():
+        if fid.lstrip("<").startswith("vrp_core::construction::features"):
+            fits += sum(1 for _, t in mir.calls(fn) if t["callee"].endswith("::can_fit"))
+    if fits < 2:
+        r.fail("can_fit", "capacity constraints no longer use the component-wise LoadOps::can_fit", None)
+    else:
+        r.ok("can_fit", f"{fits} component-wise capacity tests in the features")
+    for root, fid, op, ty, ln in sites:
+        inst = f"{util.short_fn(root)}: {op} on {ty}"
+        if root in O1_HEURISTIC:
+            r.ok(inst, "table: " + O1_HEURISTIC[root])
+        else:
+            r.fail(inst, f"a hard-constraint verdict uses `{op}` of the PARTIAL order on (possibly multi-dimensional) loads: it is inconclusive whenever the dimensions disagree, so a demand "
+                         "exceeding what is available in one dimension passes; the component-wise test is `can_fit`", F.loc(fid, ln))
+
+
 # ---- K3 load type agreement (pragmatic) -----------------------------------------------------------
 LOAD_SITES = ("set_job_demand", "set_vehicle_capacity", "new", "build", "create_capacity_with_reload_feature", "create_max_load_balanced_feature")
 
@@ -841,6 +876,8 @@ def run(ctx):
     ctx.run("C01-G2", "route-level gate: public evaluator entries reach the insertion analysis only through the None edge of goal.evaluate(route move)", g2_route_gate, floor=2)
     ctx.run("C01-G3", "InsertionSuccess is built only from an evaluated feasible position (make_success callers gated; copies only)", g3_success_construction, floor=12)
     ctx.run("C01-G4", "only confirmed modules insert activities into tours / obtain mutable activity access", g4_who_may_insert, floor=12)
+    ctx.run("C01-Q1", "no comparison in constraint code relates a value to itself (a constant guard)", q1_no_self_comparison, floor=1)
+    ctx.run("C01-O1", "load verdicts in capacity/reload constraints are component-wise (can_fit), not the partial order", o1_componentwise_loads, floor=2)
     ctx.run("C01-K3", "pragmatic reader: demand, capacity and capacity features pick the load type by the same predicate", k3_load_types, floor=10)
     ctx.run("C01-R1", "relaxed / amended goals never escape: original problem re-assigned on every path, or every individual recovered through repair", r1_relaxed_goal, floor=5)
     ctx.run("C01-A1", "goal assembly: every hard constraint is pushed into the goal's feature list under its own input-derived property", a1_goal_assembly, floor=20)
